@@ -787,6 +787,8 @@ func (t *Term) body() string {
 		args()
 	case "raw":
 		return t.S
+	case "keep":
+		return "(= " + t.Args[0].ref() + " " + t.Args[0].ref() + ")"
 	case "uf":
 		if len(t.Args) == 0 {
 			return smtName(t.S)
